@@ -4,6 +4,7 @@ import (
 	"fmt"
 	"go/types"
 	"strings"
+	"sync"
 
 	"golang.org/x/tools/go/ssa"
 
@@ -87,8 +88,62 @@ func (m *Model) field(n *types.Named, role string, prefer string, pred func(t ty
 			return c
 		}
 	}
+	if len(cands) == 0 {
+		// one level down: the state may live in a field of an unexported helper struct of the
+		// same package (a table, gate or barrier type wrapping the map / flag / WaitGroup)
+		var inner []*types.Var
+		var owners []*types.Named
+		for _, hf := range helperFields(n) {
+			hst := hf.named.Underlying().(*types.Struct)
+			for i := 0; i < hst.NumFields(); i++ {
+				f := hst.Field(i)
+				if pred(f.Type(), typeStr(f.Type())) {
+					inner = append(inner, f)
+					owners = append(owners, hf.named)
+				}
+			}
+		}
+		if len(inner) == 1 {
+			nestedOwner.Store(inner[0], owners[0])
+			return inner[0]
+		}
+	}
 	m.problem("%s: role %q resolves to %d fields (want 1)", n.Obj().Name(), role, len(cands))
 	return nil
+}
+
+// nestedOwner records, for an anchor found inside a helper struct, the helper
+// type that declares it (the owner to use in access paths).
+var nestedOwner sync.Map // *types.Var → *types.Named
+
+type helperField struct {
+	field *types.Var
+	named *types.Named
+}
+
+// helperFields lists the fields of n whose type is (a pointer to) an unexported
+// struct type declared in the same package.
+func helperFields(n *types.Named) []helperField {
+	st, ok := n.Underlying().(*types.Struct)
+	if !ok {
+		return nil
+	}
+	var out []helperField
+	for i := 0; i < st.NumFields(); i++ {
+		f := st.Field(i)
+		t := f.Type()
+		if p, isP := t.(*types.Pointer); isP {
+			t = p.Elem()
+		}
+		hn, isN := types.Unalias(t).(*types.Named)
+		if !isN || hn.Obj().Exported() || hn.Obj().Pkg() != n.Obj().Pkg() || hn == n {
+			continue
+		}
+		if _, isS := hn.Underlying().(*types.Struct); isS {
+			out = append(out, helperField{f, hn})
+		}
+	}
+	return out
 }
 
 func isType(want ...string) func(types.Type, string) bool {
@@ -160,6 +215,15 @@ func Resolve(p *ir.Prog) *Model {
 		for i := 0; i < st.NumFields(); i++ {
 			if wgT(nil, typeStr(st.Field(i).Type())) {
 				wgs = append(wgs, st.Field(i))
+			}
+		}
+		for _, hf := range helperFields(s) {
+			hst := hf.named.Underlying().(*types.Struct)
+			for i := 0; i < hst.NumFields(); i++ {
+				if wgT(nil, typeStr(hst.Field(i).Type())) {
+					wgs = append(wgs, hst.Field(i))
+					nestedOwner.Store(hst.Field(i), hf.named)
+				}
 			}
 		}
 		for _, w := range wgs {
@@ -273,8 +337,20 @@ func boolFieldFromOption(p *ir.Prog, owner *types.Named, option string) *types.V
 		return found
 	}
 	var out *types.Var
+	var boolFields []*types.Var
 	for i := 0; i < st.NumFields(); i++ {
-		f := st.Field(i)
+		boolFields = append(boolFields, st.Field(i))
+	}
+	for _, hf := range helperFields(owner) {
+		hst := hf.named.Underlying().(*types.Struct)
+		for i := 0; i < hst.NumFields(); i++ {
+			if typeStr(hst.Field(i).Type()) == "bool" {
+				boolFields = append(boolFields, hst.Field(i))
+				nestedOwner.Store(hst.Field(i), hf.named)
+			}
+		}
+	}
+	for _, f := range boolFields {
 		if typeStr(f.Type()) != "bool" {
 			continue
 		}
@@ -325,6 +401,9 @@ func waitedInExported(p *ir.Prog, w *types.Var) bool {
 func PathOfVar(n *types.Named, v *types.Var) facts.Path {
 	if n == nil || v == nil {
 		return facts.Path{}
+	}
+	if o, ok := nestedOwner.Load(v); ok {
+		n = o.(*types.Named)
 	}
 	return facts.Path{Owner: n.Obj(), Field: v}
 }
